@@ -34,6 +34,7 @@ DECIDING = {
     "waits_already_published": "publication before request",
     "waits_same_instant": "request and publication at the same virtual instant (ordering decided by the scheduler)",
     "waits_on_factory": "match by resource factory",
+    "waits_on_async_factory": "match by an asynchronous resource factory",
     "waits_on_multi": "match by a multi-type resource",
     "waits_on_remapped": "match by default-name remapping",
     "waits_after_burst_50plus": "a burst of >= 50 unrelated publications while a waiter was blocked",
@@ -69,8 +70,10 @@ def run_case(case: Any) -> dict[str, Any]:
     for e in ev:
         if e["kind"] == "wait-end":
             r = res[e["rid"]]
-            if r["kind"] == "factory":
+            if r["kind"] in ("factory", "afactory"):
                 c["waits_on_factory"] = c.get("waits_on_factory", 0) + 1
+            if r["kind"] == "afactory":
+                c["waits_on_async_factory"] = c.get("waits_on_async_factory", 0) + 1
             if r["kind"] == "multi":
                 c["waits_on_multi"] = c.get("waits_on_multi", 0) + 1
             if r["given_name"] != r["name"]:
